@@ -38,6 +38,8 @@ def cases(tier, seed):
             if c.get('dest') == 'reg':
                 base.append(dict(c, reset=(1 << c['wd']) - 1))
                 base.append(dict(c, reset=1))
+        base += [dict(c, spare=2) for c in designs.op_cases([1, 3], ops='w+x', mul_max=0)]
+        base += designs.misc_cases()
         base += designs.expr_cases(30, seed, n=6, maxw=5)
         base += designs.seq_cases()
     else:
@@ -49,6 +51,8 @@ def cases(tier, seed):
             if c.get('dest') == 'reg':
                 base.append(dict(c, reset=(1 << c['wd']) - 1))
                 base.append(dict(c, reset=1))
+        base += [dict(c, spare=1 + i % 3) for i, c in enumerate(designs.op_cases([1, 3, 8], ops='w+-x<c', mul_max=0))]
+        base += designs.misc_cases() + designs.dup_cases()
         base += designs.expr_cases(200, seed, n=8, maxw=6)
         base += designs.seq_cases(widths=(1, 4, 8))
     for i, c in enumerate(base):
@@ -58,7 +62,7 @@ def cases(tier, seed):
 
 
 def site_of(case):
-    d = 'OP:op=%s' % case['op'] if case['fam'] == 'OP' else ('SEQ:%s' % case['kind'] if case['fam'] == 'SEQ' else 'EXPR')
+    d = 'OP:op=%s' % case['op'] if case['fam'] == 'OP' else ('%s:%s' % (case['fam'], case['kind']) if case['fam'] in ('SEQ', 'MISC') else case['fam'])
     has_mem = case['fam'] == 'OP' and case['op'] == 'm' or case['fam'] == 'SEQ' and 'mem' in case['kind']
     return 'C03:synthesize(merge=%s):%s%s' % (case['merge'], d, ':mem' if has_mem else '')
 
